@@ -2,8 +2,176 @@ package erpc
 
 // Round 7 harnesses (root package).
 
+import (
+	"context"
+	"time"
+)
+
 func init() {
 	vxRegister("VX_C07_HandlerAwaitsCloseNotify", VX_C07_HandlerAwaitsCloseNotify)
+	vxRegister("VX_C03_AfterDeadlineBoundWrite", VX_C03_AfterDeadlineBoundWrite)
+	vxRegister("VX_C08_CloseDuringLaunch", VX_C08_CloseDuringLaunch)
+	vxRegister("VX_C10_RewrittenName", VX_C10_RewrittenName)
+}
+
+// vxRewrite is a header plugin that renames requests (what the shipped
+// ignorecase plugin does with strings.ToLower): from -> to.
+type vxRewrite struct{ from, to string }
+
+func (r *vxRewrite) Name() string { return "rewrite" }
+func (r *vxRewrite) PostReadCallHeader(ctx ReadCtx) *Status {
+	if ctx.ServiceMethod() == r.from {
+		ctx.ResetServiceMethod(r.to)
+	}
+	return nil
+}
+func (r *vxRewrite) PostReadPushHeader(ctx ReadCtx) *Status {
+	if ctx.ServiceMethod() == r.from {
+		ctx.ResetServiceMethod(r.to)
+	}
+	return nil
+}
+
+// VX_C10_RewrittenName: a header plugin renames a request before routing
+// (ignorecase, alias tables). The request is dispatched under the name it has
+// after the header hooks - the name every later stage and the reply see - and
+// under no other: a request renamed to a registered name reaches exactly that
+// name's handler, one renamed to an unregistered name yields Not Found without
+// running the handler registered under its wire name. CALL and PUSH.
+// args: kind(0 CALL, 1 PUSH), case(0 registered->registered, 1 unregistered->registered, 2 registered->unregistered)
+func VX_C10_RewrittenName(args []int) {
+	kind, cs := args[0], args[1]
+	from, to := "/old", "/new"
+	switch cs {
+	case 1:
+		from = "/alias"
+	case 2:
+		to = "/gone"
+	}
+	p := vxNewPeer(&vxRewrite{from: from, to: to})
+	rOld, rNew := &vxRoute{name: "old"}, &vxRoute{name: "new"}
+	if kind == 0 {
+		vxRouteCall(p, rOld)
+		vxRouteCall(p, rNew)
+	} else {
+		vxRoutePush(p, rOld)
+		vxRoutePush(p, rNew)
+	}
+	conn := newVxConn("srv:1", "cli:2")
+	_, st := p.ServeConn(conn)
+	vxAssume(st.OK())
+	mt := TypeCall
+	if kind == 1 {
+		mt = TypePush
+	}
+	conn.feed(vxFrame(mt, 9, from, []byte("x")))
+	vxWaitIdle()
+	if cs == 2 {
+		vxAssert(rOld.calls == 0 && rNew.calls == 0, "a request renamed to an unregistered name invokes no registered handler")
+		if kind == 0 {
+			vxAssert(conn.nWrites() == 1, "[C03] CALL answered")
+			if conn.nWrites() == 1 {
+				m, e := vxParse(conn.writes[0])
+				vxAssert(e == nil && m.Status(true).Code() == CodeNotFound, "and yields Not Found")
+			}
+		}
+	} else {
+		vxAssert(rNew.calls == 1, "a request renamed by a header plugin reaches the handler registered under its new name")
+		vxAssert(rOld.calls == 0, "and not the handler registered under the name it had on the wire")
+		if kind == 0 && conn.nWrites() == 1 {
+			m, e := vxParse(conn.writes[0])
+			vxAssert(e == nil && m.StatusOK(), "the renamed CALL is answered OK")
+		}
+	}
+	vxCover("c10.rewritten")
+}
+
+// VX_C08_CloseDuringLaunch: a call's request has just been transmitted (the
+// transport write has not returned to the launcher yet) when the session is
+// closed locally. The call was issued before closing: Close waits for it, the
+// peer's reply completes it with OK and the reply's body, and only then Close
+// returns. args: none
+func VX_C08_CloseDuringLaunch(args []int) {
+	p := vxNewPeer()
+	conn := newVxConn("cli:1", "srv:2")
+	s, st := p.ServeConn(conn)
+	vxAssume(st.OK())
+	entered := make(chan struct{}, 1)
+	rel := make(chan struct{})
+	first := true
+	conn.onWrite = func([]byte) {
+		if first {
+			first = false
+			entered <- struct{}{}
+			<-rel
+		}
+	}
+	ch := make(chan CallCmd, 1)
+	var res []byte
+	fin := make(chan CallCmd, 1)
+	go func() { fin <- s.AsyncCall("/a", []byte("1"), &res, ch) }()
+	<-entered // the request is on the wire; the launch has not returned yet
+	closed := make(chan struct{})
+	go func() {
+		s.Close()
+		close(closed)
+	}()
+	vxWaitIdle()
+	vxAssert(!vxClosedChan(closed), "Close waits for a call whose request is already on the wire")
+	close(rel)
+	vxWaitIdle()
+	vxAssert(len(fin) == 1, "launch returns")
+	req, e := vxParse(conn.writes[0])
+	vxAssume(e == nil)
+	vxAssert(!vxClosedChan(closed), "Close still waits for the pending call")
+	conn.feed(vxFrame(TypeReply, req.Seq(), "", []byte("R")))
+	vxWaitIdle()
+	vxAssert(len(ch) == 1, "[C02] the call issued before Close completes")
+	if len(ch) == 1 {
+		cmd := <-ch
+		vxAssert(cmd.Status().OK() && string(res) == "R", "a call issued before closing completes with the peer's reply, not with a connection error")
+	}
+	vxAssert(vxClosedChan(closed), "Close returns once the pending call has its reply")
+	vxAssert(vxBlockedThreads() == 0, "nothing left blocked")
+	vxCover("c08.close-during-launch")
+}
+
+// VX_C03_AfterDeadlineBoundWrite: a message that carries a deadline is written
+// on a session (a push or a call with a context that has a timeout); later,
+// after that deadline has passed, a CALL arrives. It is handled once and its
+// reply is written: the deadline of an earlier message is not in force for a
+// later one. args: first(0 push with a timeout context, 1 call with one)
+func VX_C03_AfterDeadlineBoundWrite(args []int) {
+	p := vxNewPeer()
+	runs := 0
+	route := &vxRoute{name: "h"}
+	route.fn = func(ctx *handlerCtx, arg []byte) (interface{}, *Status) {
+		runs++
+		return arg, nil
+	}
+	vxRouteCall(p, route)
+	conn := newVxConn("srv:1", "cli:2")
+	s, st := p.ServeConn(conn)
+	vxAssume(st.OK())
+	ctx, cancel := context.WithTimeout(context.Background(), time.Hour) // the harness, not the clock, decides when it has passed
+	defer cancel()
+	if args[0] == 0 {
+		vxAssert(s.Push("/p", []byte("1"), WithContext(ctx)).OK(), "push with a timeout context is written")
+	} else {
+		s.AsyncCall("/c", []byte("1"), new([]byte), make(chan CallCmd, 1), WithContext(ctx))
+	}
+	vxAssert(conn.nWrites() == 1, "first message written")
+	conn.expireDeadlines() // time passes: that message's deadline is now in the past
+	conn.feed(vxFrame(TypeCall, 7, "/h", []byte("x")))
+	vxWaitIdle()
+	vxAssert(runs == 1, "the CALL is handled once")
+	vxAssert(conn.nWrites() == 2, "a CALL received after an earlier message's write deadline has passed is answered")
+	if conn.nWrites() == 2 {
+		m, e := vxParse(conn.writes[1])
+		vxAssert(e == nil && m.Mtype() == TypeReply && m.Seq() == 7 && m.StatusOK(), "with its own OK reply")
+	}
+	vxAssert(s.Health(), "the session stays up")
+	vxCover("c03.after-deadline-write")
 }
 
 // VX_C07_HandlerAwaitsCloseNotify: a handler that runs until the session's
